@@ -134,6 +134,10 @@ type Plan struct {
 	Faults  []Fault   `json:"faults,omitempty"`
 	Disturb []Disturb `json:"disturb,omitempty"`
 	Sites   []string  `json:"sites,omitempty"` // yield sites that actually park in this run
+	// TypeWithReport: that many times, when a cursor position report asked for by another task (resize watcher,
+	// Printf caller) is about to be read by the main input loop, the next script token is typed first so that
+	// both arrive in one read (class S0 otherwise types only while nothing else is going on)
+	TypeWithReport int `json:"type_with_report,omitempty"`
 	Tape    []uint32  `json:"tape,omitempty"`
 	UseTape bool      `json:"use_tape,omitempty"`
 	Seed    uint64    `json:"seed"`
